@@ -148,7 +148,10 @@ class ScoreColumnMulti(BaseEstimator):
 
     def predict_proba(self, X):
         s = self._col(X, "predict_proba")
-        return np.column_stack([1 - s, s])
+        out = np.column_stack([1 - s, s])
+        if self.out_dtype == "float32":  # a float32 probability table (torch / lightgbm style)
+            out = out.astype(np.float32)
+        return out
 
 
 class PredictOnlyColumn(BaseEstimator):
